@@ -142,6 +142,42 @@ def tracked_set_pairing(ctx, clause):
     return obs
 
 
+def endpoint_answer_table(ctx, clause):
+    """The two halves of the endpoint traversal read the same kind of answer: for one JSON result (IRI, tagged literal, typed
+    literal and blank-node bindings) query_endpoint_po_of_an_s gives (predicate, other end) and query_endpoint_sp_of_an_o gives
+    (other end, predicate) of the very same tokens, IRIs between corners.  The network call is the only thing replaced."""
+    p = ctx.p
+    ans = {"head": {"vars": ["a", "b"]}, "results": {"bindings": [
+        {"a": {"type": "uri", "value": "http://e/x"}, "b": {"type": "uri", "value": "http://e/y"}},
+        {"a": {"type": "uri", "value": "http://e/p"}, "b": {"type": "literal", "value": "hola", "xml:lang": "es"}},
+        {"a": {"type": "uri", "value": "http://e/q"}, "b": {"type": "typed-literal", "value": "5", "datatype": "http://www.w3.org/2001/XMLSchema#int"}},
+        {"a": {"type": "uri", "value": "http://e/r"}, "b": {"type": "bnode", "value": "b0"}}]}}
+    got = {}
+    for fn, ids in (("query_endpoint_po_of_an_s", {"p_id": "a", "o_id": "b"}), ("query_endpoint_sp_of_an_o", {"s_id": "b", "p_id": "a"})):
+        f = p.func("shexer.io.sparql.query:" + fn)
+        ev = Evaluator(ctx, max_depth=8)
+        ev.stubs = {"_query_endpoint_json_result": ans}
+        kws = dict(endpoint_url="http://x/sparql", str_query="q", **ids)
+        if any(k not in f.params for k in kws):
+            raise AnalysisError("%s no longer takes %s" % (fn, sorted(k for k in kws if k not in f.params)))
+        outs = ev.outcomes(f, kws)
+        got[fn] = outs[0][1] if len(outs) == 1 and outs[0][0] == "return" and isinstance(outs[0][1], list) else outs
+    po, sp = got["query_endpoint_po_of_an_s"], got["query_endpoint_sp_of_an_o"]
+    f = p.func("shexer.io.sparql.query:query_endpoint_sp_of_an_o")
+    problems = []
+    if not (isinstance(po, list) and all(isinstance(t, tuple) and len(t) == 2 for t in po) and len(po) == 4):
+        problems.append("query_endpoint_po_of_an_s gives %s" % (po,))
+    elif not (isinstance(sp, list) and all(isinstance(t, tuple) and len(t) == 2 for t in sp) and len(sp) == 4):
+        problems.append("query_endpoint_sp_of_an_o gives %s" % (sp,))
+    else:
+        if [t[0] for t in po] != ["<http://e/x>", "<http://e/p>", "<http://e/q>", "<http://e/r>"] or po[0][1] != "<http://e/y>":
+            problems.append("IRIs of the answer do not come out between corners, in answer order: %s" % (po,))
+        if sp != [(b_, a_) for a_, b_ in po]:
+            problems.append("the incoming half reads the same answer as %s, the outgoing half as %s: not the same tokens mirrored" % (sp, po))
+    return [Ob(clause, "R-TABLE", "R-TABLE|endpoint-answer-po-vs-sp", f.loc(), not problems,
+               "both halves read an endpoint answer into the same tokens, mirrored" if not problems else "; ".join(problems))]
+
+
 def corners_table(ctx, clause):
     f = ctx.p.func("shexer.io.sparql.query:_add_corners_if_needed")
     ev = Evaluator(ctx)
@@ -255,6 +291,7 @@ def check(ctx, tier):
                                                                    [c.flow.param("shexer.shaper:Shaper.__init__", o)],
                                                                    skip_funcs={"shexer.shaper:Shaper.__init__"})[0], ctx, "D-f", default=[])
     obs += ctx.attempt(tracked_set_pairing, ctx, "D-c", default=[])
+    obs += ctx.attempt(endpoint_answer_table, ctx, "D-b", default=[])
     from ..rules import plumb as _plumb
     obs += ctx.attempt(_plumb.namespace_orientation, ctx, "D-h", default=[])
     from ..rules import scanner as _scanner        # endpoint answers arrive as bare tokens: their typing is the local reader's
